@@ -227,6 +227,10 @@ def run_impl(spec, solver, limit, hints):
     if m is None:
         return ("unbuildable",)
     res = guarded(lambda: m.solve(solver=solver, solution_limit=limit, hints=dict(hints) if hints is not None else None), timeout=5)
+    if res[0] == "hang":
+        # wall-clock limit on a shared machine: a real hang persists on a fresh model with a generous limit
+        m = build_model(spec)
+        res = guarded(lambda: m.solve(solver=solver, solution_limit=limit, hints=dict(hints) if hints is not None else None), timeout=40)
     if res[0] != "ok":
         return res
     r = res[1]
@@ -753,6 +757,8 @@ def run(ctx: Ctx):
 
 
 def replay(obj):
+    if "spec" not in obj and "vars" in obj and "cons" in obj:  # a corpus file
+        obj = {"spec": {"vars": obj["vars"], "cons": obj["cons"]}, "hints": obj.get("hints"), "solver": "all", "limit": obj.get("limit", 1000)}
     if "spec" not in obj:
         print("replay names an unchecked obligation:", obj.get("unchecked") or obj.get("what"))
         return 1
